@@ -716,6 +716,18 @@ func Trichotomy(c *core.Ctx, rule string, pkgs []*packages.Package, floor int) {
 					walk(s.Body.List, nil)
 				case *ast.RangeStmt:
 					walk(s.Body.List, nil)
+				case *ast.SwitchStmt:
+					// a tagless switch is an if-chain: `case less(a, b): return -1`
+					if s.Tag == nil && s.Init == nil {
+						for _, cl := range s.Body.List {
+							cc := cl.(*ast.CaseClause)
+							if len(cc.List) == 1 {
+								walk(cc.Body, &ast.IfStmt{Cond: cc.List[0], Body: &ast.BlockStmt{List: cc.Body}})
+							} else {
+								walk(cc.Body, nil)
+							}
+						}
+					}
 				}
 			}
 		}
